@@ -184,18 +184,20 @@ pub enum Quirk {
     MapDupKey,
     FloatWide,
     IntAsFloat,
+    IntAsFloatSameLen,
     TextNfd,
     NanPayload,
     NegZero,
 }
 
-pub const ALL_QUIRKS: [Quirk; 9] = [
+pub const ALL_QUIRKS: [Quirk; 10] = [
     Quirk::LongHead,
     Quirk::Indefinite,
     Quirk::MapReversed,
     Quirk::MapDupKey,
     Quirk::FloatWide,
     Quirk::IntAsFloat,
+    Quirk::IntAsFloatSameLen,
     Quirk::TextNfd,
     Quirk::NanPayload,
     Quirk::NegZero,
@@ -231,7 +233,23 @@ fn enc_q(item: &Item, counter: &mut usize, target: usize, quirk: Quirk, applied:
     };
     match item {
         Item::UInt(n) => {
-            if here && quirk == Quirk::IntAsFloat && *n < (1u64 << 53) {
+            if here && quirk == Quirk::IntAsFloatSameLen {
+                // a float encoding that is exactly as long as the canonical integer encoding
+                let f = *n as f64;
+                if *n >= (1u64 << 31) && *n < (1u64 << 32) && ((f as f32) as f64) == f && (f as u64) == *n {
+                    out.push(0xfa);
+                    out.extend_from_slice(&(f as f32).to_bits().to_be_bytes());
+                    *applied = true;
+                    return;
+                }
+                if *n >= (1u64 << 32) && (f as u64) == *n && (f as u128) == (*n as u128) {
+                    out.push(0xfb);
+                    out.extend_from_slice(&f.to_bits().to_be_bytes());
+                    *applied = true;
+                    return;
+                }
+                hd(0, *n, out, applied)
+            } else if here && quirk == Quirk::IntAsFloat && *n < (1u64 << 53) {
                 let f = *n as f64;
                 out.push(0xfb);
                 out.extend_from_slice(&f.to_bits().to_be_bytes());
